@@ -22,7 +22,49 @@ KERNELS = [
     ("orix/quaternion/_conversions.py", "qu2ho_single", [("qu", 4)], None),
     ("orix/quaternion/_conversions.py", "ho2ax_single", [("ho", 3)], None),
     ("orix/quaternion/_conversions.py", "get_pyramid_single", [("xyz", 3)], None),
+    ("orix/plot/direction_color_keys/_util.py", "hsl_to_hsv", [("hue", None), ("saturation", None), ("lightness", None)], None),
 ]
+
+
+# vectorised numpy helpers translated on ONE symbolic element (leading batch axes absent): file, function, Lean name,
+# symbolic parameters (C09)
+ELEMENTWISE = [
+    ("orix/vector/miller.py", "_hkl2hkil", "hkl2hkil", [("hkl", 3)]),
+    ("orix/vector/miller.py", "_hkil2hkl", "hkil2hkl", [("hkil", 4)]),
+    ("orix/vector/miller.py", "_uvw2UVTW", "uvw2UVTW", [("uvw", 3)]),
+    ("orix/vector/miller.py", "_UVTW2uvw", "UVTW2uvw", [("UVTW", 4)]),
+]
+
+
+def stereo_kernels(funcs, consts):
+    """`_vector2xy(v, pole)` on the components of `v.unit` and `InverseStereographicProjection.xy2vector` with
+    `self.pole` symbolic (C20); returns [(lean name, arity, text)]"""
+    out = []
+    interp = py2lean.Interp(funcs, dict(consts))
+    vals, flat = py2lean.sym_params(interp, [("pole", None), ("vx", None), ("vy", None), ("vz", None)])
+    interp.constants["v.unit.xyz"] = [vals[1], vals[2], vals[3]]
+    if "_vector2xy" not in funcs:
+        raise py2lean.Unsupported("function not found")
+    value = interp.run_function(funcs["_vector2xy"], [py2lean.NONE, vals[0]])
+    out.append(("vector2xy", 4, py2lean.emit_def("vector2xy", flat, value, interp,
+                                                  doc="orix/projections/stereographic.py::_vector2xy (on v.unit.xyz)")))
+    f = funcs.get("xy2vector")
+    if f is None or not isinstance(f.body[-1], ast.Return):
+        raise py2lean.Unsupported("xy2vector: pattern not found")
+    lists = [n for n in ast.walk(f.body[-1]) if isinstance(n, ast.List) and len(n.elts) == 3
+             and all(isinstance(e, ast.Name) for e in n.elts)]
+    if len(lists) != 1:
+        raise py2lean.Unsupported("xy2vector: returned component list not found")
+    interp = py2lean.Interp(funcs, dict(consts))
+    vals, flat = py2lean.sym_params(interp, [("pole", None), ("x", None), ("y", None)])
+    interp.constants["self.pole"] = vals[0]
+    r = interp.exec_block(f.body[:-1], {"self": py2lean.NONE, "x": vals[1], "y": vals[2]})
+    if r[0] != "fall":
+        raise py2lean.Unsupported("xy2vector: early return")
+    value = [r[1][e.id] for e in lists[0].elts]
+    out.append(("xy2vector", 3, py2lean.emit_def("xy2vector", flat, value, interp,
+                                                  doc="orix/projections/stereographic.py::InverseStereographicProjection.xy2vector")))
+    return out
 
 
 def module_constants():
@@ -110,6 +152,27 @@ def generate():
             status.setdefault(lean, "not translated: pattern not found")
     except py2lean.Unsupported as e:
         status["outer_dask_qq"] = status["outer_dask_qv"] = f"not translated: {e}"
+    extra_arity = {}
+    for rel, fname, lean, params in ELEMENTWISE:
+        funcs = cache.setdefault(rel, load_funcs(rel))
+        try:
+            if fname not in funcs:
+                raise py2lean.Unsupported("function not found")
+            parts.append(py2lean.translate_function(funcs, consts, fname, params, lean_name=lean,
+                                                    doc=f"{rel}::{fname} (one element)"))
+            status[lean] = "translated"
+            extra_arity[lean] = sum(n for _, n in params)
+        except (py2lean.Unsupported, KeyError, IndexError, TypeError) as e:
+            status[lean] = f"not translated: {e}"
+    try:
+        rel = "orix/projections/stereographic.py"
+        for lean, n, text in stereo_kernels(cache.setdefault(rel, load_funcs(rel)), consts):
+            parts.append(text)
+            status[lean] = "translated"
+            extra_arity[lean] = n
+    except (py2lean.Unsupported, KeyError, IndexError, TypeError) as e:
+        for lean in ("vector2xy", "xy2vector"):
+            status.setdefault(lean, f"not translated: {e}")
     # registry for the driver: name -> list function
     reg = ["/-- generated kernels by name, as list functions (for the line-protocol driver) -/",
            "def registry {α : Type} [Scalar α] : List (String × (List α → Option (List α))) := ["]
@@ -118,6 +181,7 @@ def generate():
                for _, f, ps, _ in KERNELS}
     arities["outer_dask_qq"] = 8
     arities["outer_dask_qv"] = 7
+    arities.update(extra_arity)
     for f, st in status.items():
         if st != "translated":
             continue
